@@ -2,6 +2,7 @@ package server
 
 import (
 	"context"
+	"sync/atomic"
 	"time"
 
 	cmtsvc "github.com/cometbft/cometbft/libs/service"
@@ -46,7 +47,9 @@ func (eis *EVMIndexerService) OnStart() error {
 	if err != nil {
 		return err
 	}
-	latestBlock := status.SyncInfo.LatestBlockHeight
+	// shared between the header-processing goroutine (writer) and the indexing loop (reader)
+	var latestBlock atomic.Int64
+	latestBlock.Store(status.SyncInfo.LatestBlockHeight)
 
 	newBlockSignal := make(chan struct{}, 1)
 	// quitSignalReBroadcast is used to re-broadcast quit signal to other goroutines.
@@ -79,8 +82,8 @@ func (eis *EVMIndexerService) OnStart() error {
 			case msg := <-blockHeadersChan:
 				eventDataHeader := msg.Data.(cmttypes.EventDataNewBlockHeader)
 				verifhook.At("indexerService.headerReceived")
-				if eventDataHeader.Header.Height > latestBlock {
-					latestBlock = eventDataHeader.Header.Height
+				if eventDataHeader.Header.Height > latestBlock.Load() {
+					latestBlock.Store(eventDataHeader.Header.Height)
 					// notify
 					select {
 					case newBlockSignal <- struct{}{}:
@@ -104,7 +107,7 @@ func (eis *EVMIndexerService) OnStart() error {
 		return err
 	}
 	if lastIndexedBlock == -1 {
-		lastIndexedBlock = latestBlock
+		lastIndexedBlock = latestBlock.Load()
 	} else if lastIndexedBlock < status.SyncInfo.EarliestBlockHeight {
 		lastIndexedBlock = status.SyncInfo.EarliestBlockHeight
 		// Kinda unsafe, but we don't have a better way to do this.
@@ -139,7 +142,7 @@ func (eis *EVMIndexerService) OnStart() error {
 		default:
 			// process new block
 		}
-		if lastIndexedBlock >= latestBlock {
+		if lastIndexedBlock >= latestBlock.Load() {
 			// nothing to index. wait for signal of new block
 
 			// mark indexer ready if not yet
@@ -161,7 +164,7 @@ func (eis *EVMIndexerService) OnStart() error {
 			}
 			continue
 		}
-		for i := lastIndexedBlock + 1; i <= latestBlock; i++ {
+		for i := lastIndexedBlock + 1; i <= latestBlock.Load(); i++ {
 			block, err := eis.client.Block(ctx, &i)
 			if err != nil {
 				if !isIndexerMarkedReady && markFailedToIndexBlock(i) {
